@@ -7,6 +7,7 @@ writes ndjson cases to stdout
 """
 import argparse
 import json
+import os
 import random
 import sys
 
@@ -25,6 +26,7 @@ FS = ["id", "inc", "dbl"]
 
 class Gen:
     mixed_api = 0.0   # probability that a request / stream of a command script uses the capability API
+    p_then_stream = float(os.environ.get("GEN_PTS", "0.12"))   # probability that a chain has a then_stream stage
 
     def __init__(self, rng, ids, max_depth=3, family="mixed", script_budget=8):
         self.r = rng
@@ -73,6 +75,19 @@ class Gen:
                     stages.append({"k": "map", "f": r.choice(FS)})
                 else:
                     stages.append({"k": "then_req", "f": r.choice(FS), "tag": self.tag()})
+            # then_stream: RequestBuilder's is sequential (flat_map), StreamBuilder's is flatten_unordered;
+            # at most one per chain, and on a stream root only pure maps come before it
+            if self.family != "legacy" and r.random() < self.p_then_stream:
+                ts = {"k": "then_stream", "f": r.choice(FS), "tag": self.tag()}
+                if r.random() < 0.4:
+                    ts["itag"] = self.tag()
+                if root["k"] == "req":
+                    stages.insert(r.randint(0, len(stages)), ts)
+                else:
+                    k = 0
+                    while k < len(stages) and stages[k]["k"] == "map":
+                        k += 1
+                    stages.insert(r.randint(0, k), ts)
             return {"k": "chain", "id": cid, "tid": tid, "root": root, "stages": stages,
                     "sink": {"tag": self.tag()}}
         if k == "async":
